@@ -7,6 +7,7 @@ import BacVerif.Lemmas.RouterCacheStrip
 namespace BacVerif.RouterCache
 variable {α : Type} [DecidableEq α]
 
+omit [DecidableEq α] in
 theorem addLoopNew_spec (s : Net) (a : α) (st : Nat) (ds : List Nat) :
     ∀ (dn : List (Nat × Nat)) (p : List ((Net × Nat) × α)),
       (∀ d, aget d (addLoopNew s a st ds dn p).1 = if d ∈ ds then some st else aget d dn) ∧
@@ -30,6 +31,7 @@ theorem addLoopNew_spec (s : Net) (a : α) (st : Nat) (ds : List Nat) :
         by_cases e1 : kd = d <;> by_cases e2 : kd ∈ ds <;> simp [e1, e2]
       · simp [e0]
 
+omit [DecidableEq α] in
 theorem addLoopOld_spec (s : Net) (a : α) (st : Nat) (ds : List Nat) :
     ∀ (dn : List (Nat × Nat)) (p : List ((Net × Nat) × α)),
       (∀ d, aget d (addLoopOld s a st ds dn p).1 = if d ∈ ds then some st else aget d dn) ∧
